@@ -25,7 +25,7 @@ SHARDS = {'quick': 16, 'thorough': 16}
 NHIST = {'quick': 4000, 'thorough': 150000}
 MIN_NONTRIVIAL = {'quick': 1500, 'thorough': 60000}
 TIME_CAP = {'quick': 300, 'thorough': 3600}
-CONFIGS = ['default', 'string-atom', 'custom-operators', 'unit-parser', 'subset-custom-order']
+CONFIGS = ['default', 'string-atom', 'custom-operators', 'unit-parser', 'subset-custom-order', 'functions-without-par']
 FAIL_KINDS = ['unknown-atom', 'missing-operand', 'unbalanced-open', 'unbalanced-close', 'arity', 'nested-argument', 'atom-ctor']
 REQUIRED_CLASSES = (['cfg-' + c for c in CONFIGS] + ['fail-' + k for k in FAIL_KINDS] +
                     ['valid-after-failure', 'failure-after-failure', 'valid-after-valid', 'failure-after-valid',
@@ -145,6 +145,10 @@ def setup():
             [dict(operators=['par'], otype=Otype.ARGS), dict(operators=['add', 'sub'], otype=Otype.UNARY),
              dict(operators=['add', 'sub'], otype=Otype.BINARY), dict(operators=['mul', 'truediv'], otype=Otype.BINARY),
              dict(operators=['pow'], otype=Otype.BINARY)]),
+        # a subset with function operators but WITHOUT the plain parenthesis: "(1+2)" is no expression for this solver, before
+        # and after it has solved function calls
+        'functions-without-par': conf(FaultAtom,
+            {'sin': S.OperatorSin, 'exp': S.OperatorExp, 'mul': S.OperatorMul, 'add': S.OperatorAdd, 'sub': S.OperatorSub}),
     }
     return dict(S=S, guard=guard, fault=fault, cfgs=cfgs)
 
@@ -179,6 +183,22 @@ def flat(rng, atoms, binops, depth, par=True):
     return out
 
 
+def toks_funcs(rng, depth=2):
+    """operand (binop operand)*, operand := number | sin( ... ) | exp( ... ) | sometimes a plain '(' ... ')' (not an operator here)"""
+    out = []
+    for i in range(rng.choice([1, 2, 2, 3])):
+        if i:
+            out.append(rng.choice(['+', '*', '-']))
+        x = rng.random()
+        if depth > 0 and x < 0.35:
+            out += [rng.choice(['sin(', 'exp('])] + toks_funcs(rng, depth - 1) + [')']
+        elif depth > 0 and x < 0.5:
+            out += ['('] + toks_funcs(rng, depth - 1) + [')']
+        else:
+            out.append(rng.choice(['1', '2', '0.5', '3', '0', '10']))
+    return out
+
+
 def toks_custom_ops(rng):
     out = []
     for i in range(rng.choice([1, 2, 2, 3, 4])):
@@ -190,7 +210,7 @@ def toks_custom_ops(rng):
 
 
 def is_atom_token(cfg, t):
-    if cfg in ('default', 'subset-custom-order', 'custom-operators'):
+    if cfg in ('default', 'subset-custom-order', 'custom-operators', 'functions-without-par'):
         return t[0].isdigit() or t[0] == '.'
     if cfg == 'string-atom':
         return t not in ('+', '>', '(', ')')
@@ -198,7 +218,7 @@ def is_atom_token(cfg, t):
 
 
 def binop_tokens(cfg):
-    return {'string-atom': ['+', '>'], 'unit-parser': ['*', '/'], 'custom-operators': ['+']}.get(cfg)
+    return {'string-atom': ['+', '>'], 'unit-parser': ['*', '/'], 'custom-operators': ['+'], 'functions-without-par': ['+', '*']}.get(cfg)
 
 
 def gen_entry(rng, cfg, kind):
@@ -235,6 +255,8 @@ def gen_entry(rng, cfg, kind):
         toks = flat(rng, WORDS, ['+', '>'], 2)
     elif cfg == 'unit-parser':
         toks = flat(rng, UNITS, ['*', '/'], 2)
+    elif cfg == 'functions-without-par':
+        toks = toks_funcs(rng)
     else:
         toks = toks_custom_ops(rng)
     atoms = [i for i, t in enumerate(toks) if is_atom_token(cfg, t)]
@@ -268,6 +290,7 @@ KINDS_FOR = {
     'string-atom': ['missing-operand', 'unbalanced-open', 'unbalanced-close', 'nested-argument', 'atom-ctor'],
     'unit-parser': ['unknown-atom', 'missing-operand', 'unbalanced-open', 'unbalanced-close', 'nested-argument', 'atom-ctor'],
     'custom-operators': ['unknown-atom', 'missing-operand', 'atom-ctor'],
+    'functions-without-par': ['unknown-atom', 'missing-operand', 'unbalanced-close', 'atom-ctor'],
 }
 
 
